@@ -1,4 +1,74 @@
-(* stub, replaced below *)
-From MV Require Import Base.Bytes Model.FilterGrammar.
-Theorem C42_stub : True. Proof. exact I. Qed.
-Print Assumptions C42_stub.
+(* Props/C42.v -- Filter expressions mean what the documented grammar says.
+   Statements only; each is closed by [exact] of a lemma proved elsewhere.
+
+   expr / style / render: expression trees over the documented operators and their surface syntax (explicit
+   op_and or juxtaposition, redundant parentheses, whitespace of every kind, naked or coded regexes, bare /
+   raw-quoted / escape-quoted arguments), parenthesised by the documented precedence (not > and > or,
+   juxtaposition = and).  parse_grammar / parse_filter: the model of flowfilter.parse (pyparsing grammar). *)
+From Coq Require Import List Bool NArith.
+From MV Require Import Base.Bytes Gen.FlowFilterAtoms Model.FilterGrammar
+  Proofs.FilterGrammarExpr Proofs.FilterGrammarC42.
+Import ListNotations.
+
+(* The full statement (every rendering of every tree over table atoms is accepted with the documented meaning)
+   is false of the faithful model: *)
+Theorem C42_full_refuted :
+  ~ (forall e st, atoms_ok e = true ->
+       exists t, parse_grammar (render_top e st [] []) = Ok t /\ forall rho, eval rho t = evalE rho e).
+Proof. exact full_statement_false. Qed.
+Print Assumptions C42_full_refuted.
+
+(* Finding juxtaposition-in-group-rejected: !(~q ~s) is rejected (juxtaposition exists only at top level). *)
+Theorem C42_juxt_in_group_refuted :
+  atoms_ok e_group = true /\ quoting_ok e_group st_group = true
+  /\ render_top e_group st_group [] [] = [x21; x28; x7e; x71; x20; x7e; x73; x29]
+  /\ parse_grammar (render_top e_group st_group [] []) = Fail.
+Proof. exact juxt_in_group. Qed.
+Print Assumptions C42_juxt_in_group_refuted.
+
+(* Finding juxtaposition-binds-looser-than-or: ~q |~s ~a is read as (~q | ~s) & ~a. *)
+Theorem C42_juxt_or_refuted :
+  atoms_ok e_or = true /\ quoting_ok e_or st_or = true
+  /\ parse_grammar (render_top e_or st_or [] [])
+     = Ok (And [Or [Atom (AUnary [x71]); Atom (AUnary [x73])]; Atom (AUnary [x61])])
+  /\ eval rho_q (And [Or [Atom (AUnary [x71]); Atom (AUnary [x73])]; Atom (AUnary [x61])]) <> evalE rho_q e_or.
+Proof. exact juxt_or. Qed.
+Print Assumptions C42_juxt_or_refuted.
+
+(* Finding quoted-backslash-consumed: ~u followed by a quoted backslash-d yields the regex d. *)
+Theorem C42_raw_backslash_refuted :
+  atoms_ok e_raw = true /\ juxt_top e_raw st_raw = true
+  /\ parse_grammar (render_top e_raw st_raw [] []) = Ok (Atom (ARex [x75] [x64]))
+  /\ eval rho_d (Atom (ARex [x75] [x64])) <> evalE rho_d e_raw.
+Proof. exact raw_backslash. Qed.
+Print Assumptions C42_raw_backslash_refuted.
+
+(* Main theorem (unbounded depth, every style, every valuation).  Guard = complement of the findings:
+   juxt_top  -- juxtaposition only along the top-level spine (the two juxtaposition findings violate it; the
+                harmless mixed form  a b & c  is also outside and covered by correspondence only);
+   quoting_ok -- bare arguments contain no reserved character (as the documentation demands), raw-quoted ones no
+                backslash (third finding), own quote, LF or CR; escape-quoted arguments are unrestricted;
+   atoms_ok  -- codes come from the generated tables, integer arguments are digit strings.
+   The returned tree has the same atoms in the same order and the same value under every valuation. *)
+Theorem C42_partial : forall e st lead trail,
+  atoms_ok e = true -> quoting_ok e st = true -> juxt_top e st = true ->
+  exists t, parse_grammar (render_top e st lead trail) = Ok t
+            /\ (forall rho, eval rho t = evalE rho e) /\ atoms t = atomsE e.
+Proof. exact parse_render. Qed.
+Print Assumptions C42_partial.
+
+(* The same for flowfilter.parse including regex compilation, for every regex engine verdict rex_ok. *)
+Theorem C42_partial_filter : forall rex_ok e st lead trail,
+  atoms_ok e = true -> quoting_ok e st = true -> juxt_top e st = true ->
+  forallb (fun a => match a with ARex c x => rex_ok c x | _ => true end) (atomsE e) = true ->
+  exists t, parse_filter rex_ok (render_top e st lead trail) = Ok t
+            /\ (forall rho, eval rho t = evalE rho e) /\ atoms t = atomsE e.
+Proof. exact parse_filter_render. Qed.
+Print Assumptions C42_partial_filter.
+
+Theorem C42_nonvacuous :
+  atoms_ok e_ok = true /\ quoting_ok e_ok st_ok = true /\ juxt_top e_ok st_ok = true
+  /\ parse_grammar (render_top e_ok st_ok [WSp] [WCr])
+     = Ok (And [Or [Not (Atom (AUnary [x71])); Atom (ARex [x75] [x61; x20; x62])]; Atom (AInt [x63] 200%N)]).
+Proof. exact sample_ok. Qed.
+Print Assumptions C42_nonvacuous.
